@@ -324,15 +324,32 @@ Definition find_output_from_inputs (inputs : list (list nat)) : list nat :=
    derives the flags from KNOWN_FINDINGS.txt: a finding still listed as `known:` means the
    pinned behaviour (false); once it is turned into `fixed:` the model with the patch is
    demanded of the code. *)
-Record fixes := mkFx { fx_spaces : bool; fx_inter : bool; fx_outell : bool }.
-Definition no_fixes := mkFx false false false.
-Definition all_fixes := mkFx true true true.
+Record fixes := mkFx { fx_spaces : bool; fx_inter : bool; fx_outell : bool; fx_interout : bool }.
+Definition no_fixes := mkFx false false false false.
+Definition all_fixes := mkFx true true true true.
 
 (* convert_from_interleaved(args) with args = a0, in0, a1, in1, ... [, out] ;
    returns the equation string (the arrays/shapes are passed through).
    fix_inter (proposed_fixes/C12_interleaved-implicit-order.patch): without an output
    sublist the output is made explicit: find_output_from_inputs(inputs) minus Ellipsis,
-   .sort()ed by label, Ellipsis first if any input has one. *)
+   .sort()ed by label, Ellipsis first if any input has one.
+   fix_io (proposed_fixes/C12_interleaved-output-ellipsis-only.patch): the output sublist is
+   rendered with  "..." if ix is ... else symbol_map[ix]  -- an Ellipsis of the output is never
+   looked up, so one that no input carries becomes '...' (which parse_equation_ellipses, since
+   the output-ellipsis-only fix, treats as zero dimensions). *)
+(* "".join("..." if ix is ... else symbol_map[ix] for ix in output): None = KeyError *)
+Fixpoint sm_term_out (m : list (ilab * str)) (term : list ilab) : option str :=
+  match term with
+  | [] => Some []
+  | IE :: r => match sm_term_out m r with
+               | Some t => Some ([c_dot; c_dot; c_dot] ++ t)
+               | None => None
+               end
+  | x :: r => match sm_get m x, sm_term_out m r with
+              | Some s, Some t => Some (s ++ t)
+              | _, _ => None
+              end
+  end.
 Definition ilab_enc (x : ilab) : nat := match x with IE => 0 | IL k => S k end.
 Definition ilab_dec (n : nat) : ilab := match n with 0 => IE | S k => IL k end.
 Definition interleaved_sorted_output (inputs : list (list ilab)) : list ilab :=
@@ -340,7 +357,7 @@ Definition interleaved_sorted_output (inputs : list (list ilab)) : list ilab :=
   let named := sort_nat (filter (fun n => negb (Nat.eqb n 0)) once) in
   map ilab_dec ((if existsb (existsb (ilab_eqb IE)) inputs then [0] else []) ++ named).
 
-Definition convert_from_interleaved_v (fix_inter : bool) (inputs : list (list ilab)) (out : option (list ilab)) : option str :=
+Definition convert_from_interleaved_v (fix_inter fix_io : bool) (inputs : list (list ilab)) (out : option (list ilab)) : option str :=
   let symbol_map := get_symbol_map inputs in
   match sm_terms symbol_map inputs with
   | None => None
@@ -351,13 +368,13 @@ Definition convert_from_interleaved_v (fix_inter : bool) (inputs : list (list il
            | None => if fix_inter then Some (interleaved_sorted_output inputs) else None
            end) with
     | None => Some eq
-    | Some o => match sm_term symbol_map o with
+    | Some o => match (if fix_io then sm_term_out symbol_map o else sm_term symbol_map o) with
                 | Some os => Some (eq ++ [c_dash; c_gt] ++ os)
                 | None => None
                 end
     end
   end.
-Definition convert_from_interleaved := convert_from_interleaved_v false.
+Definition convert_from_interleaved := convert_from_interleaved_v false false.
 
 (* the two call forms of einsum( *args ), arrays replaced by their shapes *)
 Inductive eargs :=
@@ -370,7 +387,7 @@ Definition strip_spaces (eq : str) : str := filter (fun c => negb (Nat.eqb c c_s
 Definition einsum_eq_v (fx : fixes) (a : eargs) : option str :=
   match a with
   | AStr eq _ => Some (if fx_spaces fx then strip_spaces eq else eq)   (* eq = eq.replace(" ", "") *)
-  | AInter ops out => convert_from_interleaved_v (fx_inter fx) (map snd ops) out
+  | AInter ops out => convert_from_interleaved_v (fx_inter fx) (fx_interout fx) (map snd ops) out
   end.
 Definition eargs_shapes (a : eargs) : list shape :=
   match a with AStr _ s => s | AInter ops _ => map fst ops end.
